@@ -180,10 +180,22 @@ def present(values, pres="list", nseed=0, den=1):
         items = [v if den == 1 else v / den for v in values]
         return Presented(items, None, list(ev), None, pres)
     if pres == "array":
-        if den == 1 and nseed % 2 == 0:
-            items = np.array(values, dtype=np.int64)
-        else:
+        # int64 / float64 and, where the values fit, narrower and unsigned integer dtypes (arithmetic on unsigned numpy scalars wraps or
+        # raises where Python ints do not)
+        top = max(values) if values else 0
+        choice = nseed % 6
+        if den != 1 or choice in (1, 5):
             items = np.array([v / den for v in values], dtype=np.float64)
+        elif choice == 2 and top < 2 ** 16:
+            items = np.array(values, dtype=np.uint16)
+        elif choice == 3 and top < 2 ** 31:
+            items = np.array(values, dtype=np.int32)
+        elif choice == 4 and top < 2 ** 8:
+            items = np.array(values, dtype=np.uint8)
+        elif choice == 4 and top < 2 ** 32:
+            items = np.array(values, dtype=np.uint32)
+        else:
+            items = np.array(values, dtype=np.int64)
         return Presented(items, None, list(ev), None, pres)
     if pres == "dict-str":
         names = str_names(values, nseed)
